@@ -166,6 +166,11 @@ f34_S: {x_S: #D34_S & #EX34_S, y_S: #D34_S & #EY34_S, z_S: {
 	// wide disjunctions: a tagged union of six structs, an enumeration of six values
 	/*36*/ `#U36_S: {kind_S: "a", a_S: int} | {kind_S: "b", b_S: string} | {kind_S: "c", c_S: bool} | {kind_S: "d", d_S: [...int]} | {kind_S: "e", e_S: null} | {kind_S: "f", f_S: float}
 f36_S: {svc_S: #U36_S, svc_S: {kind_S: string}, e6_S: 1 | 2 | 3 | 4 | 5 | 6, t_S: #U36_S & {kind_S: "c"}}`,
+	// validators that look at the whole struct they are unified with (they first reduce it to data)
+	/*37*/ `#D37_S: {a_S: int, b_S: {c_S: int}}
+f37_S: {x_S: #D37_S & {a_S: 1, b_S: {c_S: 2}} & matchN(1, [{a_S: int, ...}]),
+	y_S: {p_S: [1, 2, 3], q_S: {r_S: "s"}} & matchIf({p_S: [...int], ...}, {q_S: {...}, ...}, _),
+	w_S: matchN(>0, [{a_S?: int, ...}]) & {a_S: 1, n_S: {m_S: 1}}}`,
 }
 
 // program imports only the builtin packages its fragments use, so that the
@@ -199,6 +204,7 @@ var snippetPaths = [][]string{
 	{"x_S.a_S", "y_S.a_S", "z_S.b_S", "z_S", "x_S", ""},
 	{"a_S", "g_S.h_S", "g_S", "a_S", ""},
 	{"svc_S", "e6_S", "t_S", "svc_S", ""},
+	{"x_S", "y_S", "w_S", "x_S", ""},
 }
 
 var opKinds = []string{"lookup", "fields", "fields-all", "walk", "unify", "unify-accept", "fill", "fill-value", "validate", "validate-concrete", "default", "eval",
@@ -220,7 +226,9 @@ var affinity = map[string]struct {
 	"allows-many":   {0.7, []int{33}},
 	"default":       {0.4, []int{25, 26, 29}},
 	"attrs":         {0.6, []int{34}},
-	"unify-sub":     {0.6, []int{35, 36}},
+	"unify-sub":     {0.6, []int{35, 36, 37, 37}},
+	"unify":         {0.15, []int{37}},
+	"fill-value":    {0.15, []int{37}},
 	"fill-conflict": {0.7, []int{36}},
 	"syntax-attrs":  {0.6, []int{34}},
 }
